@@ -237,23 +237,56 @@ class C16(Property):
                 if k == 3 and not full and rng.random() > 0.25:
                     continue
                 for allow in (False, True):
-                    if allow and k == 3 and rng.random() > 0.3:
+                    if allow and k == 3 and not full and rng.random() > 0.3:
                         continue
                     total += 1
                     yield {"kind": "ids", "allow_long": allow, "recs": [[i, i] for i in combo]}
         self.exhaustive_done = full
         self.extra_coverage.update({"small_scope_cases": total, "small_scope_ids": len(ids)})
 
+    # adversarial strings per regular expression of _shorten_ids (always run, every tier)
+    REGEX_STRINGS = [
+        # onti?g?(\d+)\b
+        "contig12", "contig12x", "contig12_", "contig12.", "contig12-3", "contig", "contig-12", "ontig12", "onti12",
+        "ontg12", "ont12", "on12", "ontgi12", "ontii12", "ontigg12", "ontig g12", "cont12ig34", "ont1x ont22",
+        "ont1_ont22.", "contig007", "contig0", "contig99999", "contig100000", "contig1234567", "contig123456789012",
+        "contig1234567890123", "xcontig5", "CONTIG12", "Contig12", "contig12contig13", "ont12ont", "ontig12:3",
+        # caff?o?l?d?(\d+)\b
+        "scaffold12", "scafold12", "caffold12", "caf12", "caff12", "cafo12", "cafl12", "cafd12", "cafod12", "cafdo12",
+        "cafold12", "caffo12", "cafff12", "cafol12", "cafld12", "caflo12", "scaf12x", "scaffold_12", "scaffold12_",
+        "caf", "scaffold12 contig34", "caf5 ont6", "caf5x caf66", "Scaffold12", "SCAFFOLD12", "cafdd12", "cafoo12",
+        # \bc(\d+)\b
+        "c12", "xc12", " c12", "_c12", "-c12", ".c12", "c12x", "c12_", "c12-", "cc12", "c 12", "c", "12c", "c12c34",
+        "c1x c22", "C12", "ac1 c2", "1c2", "c12.c13", ":c12", "c012",
+        # order of the alternatives
+        "contig12x caf5", "contig12x caf5x c7", "contig12x caf5x xc7", "c7 caf5 contig12", "c7 caf5", "c7 ont",
+    ]
+
+    def regex_cases(self) -> Iterator[Dict[str, Any]]:
+        pads = [("zzzzzzzzzzzzzzzzz-", ""), ("", "-zzzzzzzzzzzzzzzzz"), ("", "zzzzzzzzzzzzzzzzz"), ("zzzzzzzzzzzzzzzzz", ""),
+                ("zzzzzzzzzzzzzzzzz_", ""), ("", " zzzzzzzzzzzzzzzzz")]
+        for text in self.REGEX_STRINGS:
+            for k, (pre, post) in enumerate(pads):
+                long = pre + text + post
+                # through the name (no uniqueness involved: the pure _shorten_ids result) and through the id
+                yield {"kind": "fix", "allow_long": False, "rid": "x", "name": long, "orig": None, "index": 3 + k,
+                       "taken": ["x"]}
+                yield {"kind": "fix", "allow_long": False, "rid": long, "name": "n", "orig": None, "index": 3 + k,
+                       "taken": [long]}
+
     def cases(self, rng: random.Random, tier: str, deep: bool) -> Iterator[Dict[str, Any]]:
+        yield from self.regex_cases()
         mult = 10 if deep else 1
-        for _ in range(5000 * mult):
-            yield self.gen_ids_case(rng)
-        for _ in range(3000 * mult):
-            yield self.gen_fix_case(rng)
-        for _ in range(800 * mult):
-            yield self.gen_unique_case(rng)
-        for _ in range(2500 * mult):
-            yield self.gen_genes_case(rng)
+        # interleaved so that every kind is reached early
+        for _ in range(500 * mult):
+            for _ in range(10):
+                yield self.gen_ids_case(rng)
+            for _ in range(6):
+                yield self.gen_fix_case(rng)
+            for _ in range(2):
+                yield self.gen_unique_case(rng)
+            for _ in range(5):
+                yield self.gen_genes_case(rng)
         if deep:
             yield from self.small_scope(rng, full=(tier == "thorough"))
 
@@ -376,7 +409,7 @@ class C16(Property):
                 tags.append("rejected:" + obs["err"])
                 nontrivial = True
                 # rejecting is allowed only in the two documented ways
-                if obs["err"] not in ("RuntimeError", "no-name"):
+                if obs["err"] not in ("RuntimeError", "no-name") or (case["allow_long"] and obs["err"] != "no-name"):
                     spec_ok = False
                     detail = f"unexpected rejection {obs}"
             else:
@@ -433,6 +466,7 @@ class C16(Property):
 
     # ------------------------------------------------------------------ shrinker
     def shrink(self, case: Dict[str, Any]) -> Iterator[Dict[str, Any]]:
+        case = {k: v for k, v in case.items() if not k.startswith("_")}
         kind = case["kind"]
         if kind == "ids":
             recs = case["recs"]
